@@ -96,39 +96,16 @@ Theorem C02_mttkrp_core : forall (F : Type) (Op : rops F), ring_of Op ->
 Proof. exact @mttkrp_spec. Qed.
 Print Assumptions C02_mttkrp_core.
 
-(* inner(A, B, n)[a ++ b] = sum_c A[a ++ c] * B[c ++ b] over the n >= 1 common modes (core backend).
-   PARTIAL: n_modes >= 1 only; for n_modes = 0 the core backend is wrong (next theorem). *)
-Theorem C02_inner_core_partial : forall (F : Type) (Op : rops F) (A B : tensor F) (sa sc sb : list nat),
-  wf A -> wf B -> shape A = sa ++ sc -> shape B = sc ++ sb -> 1 <= length sc ->
+(* inner(A, B, n)[a ++ b] = sum_c A[a ++ c] * B[c ++ b] over the n >= 0 common modes (core backend; n = 0 is the
+   outer product -- repaired in /repo by f5f06aa, regression Example inner_zero_modes_regression in Proofs/TenalgProofsInner.v) *)
+Theorem C02_inner_core : forall (F : Type) (Op : rops F) (A B : tensor F) (sa sc sb : list nat),
+  wf A -> wf B -> shape A = sa ++ sc -> shape B = sc ++ sb ->
   0 < prod (shape A) -> 0 < prod (shape B) ->
   exists R, inner Op A B (Some (length sc)) = Ok R /\ wf R /\ shape R = sa ++ sb /\
     forall a b, inb sa a -> inb sb b ->
       get (r0 Op) R (a ++ b) = ssum Op sc (fun c => rmul Op (get (r0 Op) A (a ++ c)) (get (r0 Op) B (c ++ b))).
 Proof. exact @inner_core_spec. Qed.
-Print Assumptions C02_inner_core_partial.
-
-(* REFUTED (genuine defect, known finding inner_core_n_modes_zero): the core model of inner rejects n_modes = 0
-   while the einsum model returns the outer product *)
-Theorem C02_inner_core_zero_modes_refuted :
-  exists A B : tensor Z, wf A /\ wf B /\
-    inner ZR A B (Some 0) = Err /\
-    inner_e ZR A B (Some 0) = outer ZR [A; B] /\
-    outer ZR [A; B] = Ok (mk [2; 3] [1; 10; 100; 2; 20; 200]%Z).
-Proof. exact inner_core_zero_modes_refuted. Qed.
-Print Assumptions C02_inner_core_zero_modes_refuted.
-
-(* REFUTED (genuine defect, known finding tensordot_core_unsorted_batch_modes): with batched modes ([1,0],[0,1]) the core
-   model of tensordot differs from the index formula R[i,j] = A[i,j]*B[j,i], which the einsum model (and the core model on
-   the same pairs listed in increasing order) returns *)
-Theorem C02_tensordot_core_batch_refuted :
-  exists (A B : tensor Z) (Rc Re : tensor Z), wf A /\ wf B /\
-    tensordot ZR A B [] [] [1; 0] [0; 1] = Ok Rc /\
-    tensordot_e ZR A B [] [] [1; 0] [0; 1] = Ok Re /\
-    Re = tabulate [2; 3] (fun idx => (get 0%Z A idx * get 0%Z B (rev idx))%Z) /\
-    Rc <> Re /\
-    tensordot ZR A B [] [] [0; 1] [1; 0] = Ok Re.
-Proof. exact tensordot_core_batch_refuted. Qed.
-Print Assumptions C02_tensordot_core_batch_refuted.
+Print Assumptions C02_inner_core.
 
 (* non-vacuity: the hypotheses are met by concrete Gaussian-integer operands and the model computes on them *)
 Example C02_nonvacuous_mode_dot :
